@@ -331,12 +331,25 @@ class CallMixin:
         ev = self.emit(st, 'MCALL', node, recv=recv, name=name, args=args, kwargs=kwargs, starkw=starkw)
         return self.after_call(ev, [(V('mcall', name, ev.seq), st)])
 
+    def is_disk_class(self, cls):
+        """Disk or a subclass of it defined in the package."""
+        seen = 0
+        while cls is not None and seen < 6:
+            if cls == 'Disk':
+                return True
+            ci = self.prog.classes.get(cls)
+            if ci is None or not ci.bases:
+                return False
+            cls = ci.bases[0].split('.')[-1]
+            seen += 1
+        return False
+
     def call_targets(self, targets, recv, name, args, kwargs, node, st, starkw, operator=False, via_super=False):
         quals = {f.qual for f in targets}
         special = None
-        if all(f.name == 'put' and f.cls in ('Disk', 'JSONDisk') for f in targets):
+        if all(f.name == 'put' and self.is_disk_class(f.cls) for f in targets):
             special = 'put'
-        elif all(f.name == 'store' and f.cls in ('Disk', 'JSONDisk') for f in targets):
+        elif all(f.name == 'store' and self.is_disk_class(f.cls) for f in targets):
             special = 'store'
         ev = self.emit(st, 'CALL', node, targets=targets, recv=recv, name=name, args=args, kwargs=kwargs,
                        starkw=starkw, operator=operator)
